@@ -948,6 +948,7 @@ class true_to_256:
 #   w & m (m < 0, "clear fields")  -> BitWord;   w & m (m >= 0, "extract fields") -> the plain int value of those fields
 #   w | x  (x a BitWord, a constant, or an int provably inside the foreground / background number field) -> BitWord
 #          (a number field of which both operands may be non-zero: over-approximated by max(a,b) <= a|b <= a+b)
+#   w ^ x  (x as for |) -> BitWord (a number field of two symbolic numbers: some r with r == 0 iff they are equal)
 #   w == x, w != x, bool(w), hash((cls, w)) via the word's integer value  sum field * 2**lo
 # =============================================================================================================
 
@@ -1053,9 +1054,32 @@ class BitWord(ModelObj):
                     out.append(r)
         return BitWord(out)
 
+    def xor_word(self, st, o):
+        """w ^ x.  Exact on concrete fields and on one-bit fields; a symbolic number field gets some r in range with
+        r == 0 exactly when the two numbers are equal (true of ^; an over-approximation, enough for the
+        "do these words differ inside a mask" tests an equality may be written with)."""
+        out = []
+        for (lo, w), p, q in zip(LAYOUT, self.parts, o.parts):
+            if _isint(p) and _isint(q):
+                out.append(p ^ q)
+            elif _isint(q) and q == 0:
+                out.append(p)
+            elif _isint(p) and p == 0:
+                out.append(q)
+            elif w == 1:
+                out.append(ite(p == q, 0, 1))
+            else:
+                r = st.fresh_int("xor24")
+                st.assume(both(0 <= r, r < (1 << w), implies(r == 0, p == q), implies(p == q, r == 0)))
+                out.append(r)
+        return BitWord(out)
+
     # ---- dispatch
     def py_binop(self, ip, st, op, other, reflected):
         import ast as _ast
+
+        if isinstance(op, _ast.BitXor):
+            return self.xor_word(st, BitWord.lift(st, other))
 
         if isinstance(op, _ast.BitAnd):
             if _isint(other):
@@ -1109,7 +1133,7 @@ class WordShape(Shape):
 
 
 def _xcheck_bitword():
-    """BitWord's rules on concrete words against CPython's &, |, ==, bool."""
+    """BitWord's rules on concrete words against CPython's &, |, ^, ==, bool."""
     import random
 
     rnd = random.Random(18)
@@ -1128,6 +1152,8 @@ def _xcheck_bitword():
                 bad.append(("and", x, m))
         if wx.or_word(None, wy).to_int() != x | y:
             bad.append(("or", x, y))
+        if wx.xor_word(None, wy).to_int() != x ^ y:
+            bad.append(("xor", x, y))
         if bool(wx == wy) != (x == y) or bool(wx.py_truth(None)) != bool(x):
             bad.append(("eq/truth", x, y))
     return "bitword-operations-agree-with-cpython", not bad, f"3000 random words x {len(masks)} masks; mismatches: {bad[:3]}"
